@@ -90,7 +90,7 @@ def realise(sp, obligation, budget_s=600):
     """re-run a configuration under the regular-window refinement (rate m Hz, 1 s files) to obtain a counterexample that can be run on
     the real build.  -> (cfgdict, history) or None"""
     for reg in REG:
-        sp2 = dict(sp); sp2['window_regular'] = reg; sp2['name'] = sp['name'] + ' [m=%d]' % reg['m']; sp2['budget_s'] = budget_s
+        sp2 = dict(sp); sp2['window_regular'] = reg; sp2['name'] = sp['name'] + ' [m=%d]' % reg['m']; sp2['budget_s'] = budget_s; sp2['max_chunk'] = reg['m']
         sp2['witness'] = 0
         r = run_one(sp2)
         v = r['results'].get(obligation)
@@ -102,7 +102,7 @@ def realise(sp, obligation, budget_s=600):
     if not sp.get('pre'):
         # windows of unequal size (non-integer number of samples per file): concrete rational rates, windows computed with div / mod
         for (n_, d_) in ((5, 2), (7, 3)):
-            sp2 = dict(sp); sp2.update(n=n_, d=d_, sc=2, fc=1000, window_style='div', name=sp['name'] + ' [%d/%d Hz]' % (n_, d_), budget_s=budget_s, witness=0)
+            sp2 = dict(sp); sp2.update(n=n_, d=d_, sc=2, fc=1000, max_chunk=n_ // d_, window_style='div', name=sp['name'] + ' [%d/%d Hz]' % (n_, d_), budget_s=budget_s, witness=0)
             sp2['start_lo'] = 10**9 * n_ // d_; sp2['start_hi'] = 4 * 10**9 * n_ // d_
             sp2['calls'] = [dict(c, maxv=min(c.get('maxv', 12), 12), maxg=40) for c in sp['calls']]
             r = run_one(sp2)
